@@ -1,3 +1,5 @@
+//go:build !passthrough
+
 // Package simctx is an API-compatible replacement of package context whose
 // deadlines run on the simulator's virtual clock and whose cancellation is
 // applied by the simrt scheduler.
